@@ -45,6 +45,32 @@ type C13Batch struct {
 	G        [][]C13Q         `json:"g"`
 	Procs    int              `json:"procs,omitempty"`
 	Repeat   int              `json:"repeat,omitempty"` // each goroutine runs its list this many times
+	// Prelude: statements executed one after the other, on private documents, before the goroutines start; most of
+	// them fail (a join whose key column cannot be read on some row, a planted RAISE, a broken selector). Whatever
+	// they return is ignored: what the concurrent queries return must not depend on what failed earlier in the process
+	Prelude []C13Q `json:"prelude,omitempty"`
+}
+
+var c13PreludeDoc = map[string]any{
+	"pa": []any{map[string]any{"k": 1.0, "tags": []any{"a"}}, map[string]any{"k": 2.0, "tags": []any{}}, map[string]any{"k": 3.0, "tags": []any{"b", "c"}}},
+	"pb": []any{map[string]any{"k": 1.0, "tag": "a"}, map[string]any{"k": 3.0, "tag": "b"}},
+}
+
+var c13PreludeSQL = []string{
+	"SELECT * FROM pa x JOIN pb y ON x.`tags[0]` = y.tag",
+	"SELECT * FROM pb y JOIN pa x ON y.tag = x.`tags[0]`",
+	"SELECT * FROM pa x LEFT HASH_JOIN pb y ON x.`tags[0]` = y.tag",
+	"SELECT * FROM pa x PARALLEL JOIN pb y ON x.`tags[1]` = y.tag",
+	"SELECT * FROM pa x RIGHT JOIN pb y ON x.`k.z` = y.k",
+	"SELECT * FROM pa x JOIN pb y ON x.k = y.k AND RAISE('stop')",
+	"SELECT * FROM pa x PARALLEL HASH_JOIN pb y ON x.`tags[(0:5)]` = y.tag",
+	"SELECT DISTINCT `tags[0]` AS f FROM pa",
+	"SELECT k, `tags[0]` AS f FROM pa ORDER BY f",
+	"SELECT k, HASH(tags, 'md5') AS h, ENCODE(tags, 'hex') AS e FROM pa",
+	"SELECT k FROM pa GROUP BY `tags[0]`",
+	"SELECT k FROM `pa[7]`",
+	"SELECT (SELECT k FROM `<-pb[9]`) AS s FROM pa",
+	"SELECT k FROM pa WHERE RAISE_WHEN(k > 1, 'late') IS NULL",
 }
 
 type C13Case struct {
@@ -549,6 +575,12 @@ func runBatch(job *WJob) WResult {
 	for i, d := range b.Docs {
 		live[i] = val.CopyMap(d)
 	}
+	for i := range b.Prelude {
+		q := &b.Prelude[i]
+		if q.Doc >= 0 && q.Doc < len(b.Docs) {
+			c13Exec(q, val.CopyMap(b.Docs[q.Doc]))
+		}
+	}
 	type slot struct {
 		q   *C13Q
 		out []c13Outcome
@@ -708,7 +740,17 @@ func init() {
 			"the harness does not own the Go scheduler: interleavings are sampled through repetition, goroutine count and GOMAXPROCS; the race detector reports unordered conflicting accesses it observes on the executed paths",
 			"race reports are not shrinkable (schedule dependent): the batch itself is the replay file",
 		},
-		Gen:        genC13,
+		Gen: func(t *rapid.T) any {
+			c := genC13(t).(*C13Case)
+			if rapid.IntRange(0, 2).Draw(t, "prelude") == 0 {
+				c.Batch.Docs = append(c.Batch.Docs, val.CopyMap(c13PreludeDoc))
+				n := rapid.IntRange(1, 4).Draw(t, "prelude.n")
+				for i := 0; i < n; i++ {
+					c.Batch.Prelude = append(c.Batch.Prelude, C13Q{Doc: len(c.Batch.Docs) - 1, SQL: rapid.SampledFrom(c13PreludeSQL).Draw(t, fmt.Sprintf("prelude.%d", i))})
+				}
+			}
+			return c
+		},
 		New:        func() any { return &C13Case{} },
 		Check:      func(c any) Result { return checkC13(c.(*C13Case)) },
 		Quick:      250,
